@@ -165,6 +165,10 @@ type analysis struct {
 	// RootChanOps: channel operations of the root package reachable from (*Session).Serve
 	RootChanOps []chanOp
 	HasRootOps  bool
+	// Responses: how every response a function obtains is disposed of (respfacts.go)
+	Responses []respFact
+	// Closes: every close(ch) in scope (closefacts.go)
+	Closes []closeFact
 	// Gos: every go statement in scope (gofacts.go)
 	Gos []goFact
 	// Accepted: size-dependent partial operations accepted by an idiom or the allow list
@@ -278,6 +282,8 @@ func analyseScopeDerived(repo string, scope map[string]func(file string) bool, a
 			an.RootChanOps = rops
 			an.HasRootOps = true
 		}
+		an.Responses = append(an.Responses, respFactsOf(l, scope[rel], fset)...)
+		an.Closes = append(an.Closes, closeFactsOf(l, scope[rel], func(n ast.Node) int { return fset.Position(n.Pos()).Line })...)
 		an.Gos = append(an.Gos, goFactsOf(l, scope[rel], fset)...)
 		an.Pages = append(an.Pages, pageTurnsOf(l, scope[rel])...)
 		an.Cancels = append(an.Cancels, cancelFactsOf(l, scope[rel])...)
@@ -355,6 +361,8 @@ func Facts(repo string) (string, error) {
 		b.WriteString(leanLockFacts(nil, err))
 		b.WriteString(leanHandlerLockFacts(nil, false))
 		b.WriteString(leanRootChanOps(nil, false))
+		b.WriteString(leanRespFacts(nil, false))
+		b.WriteString(leanCloseFacts(nil, false))
 		b.WriteString(leanGoFacts(nil, false))
 		b.WriteString(leanPageTurns(nil, false))
 		b.WriteString(leanHeldSends(nil, false))
@@ -404,6 +412,8 @@ func Facts(repo string) (string, error) {
 	}
 	b.WriteString(leanHandlerLockFacts(an.HandlerLocks, true))
 	b.WriteString(leanRootChanOps(an.RootChanOps, an.HasRootOps))
+	b.WriteString(leanRespFacts(an.Responses, true))
+	b.WriteString(leanCloseFacts(an.Closes, true))
 	b.WriteString(leanGoFacts(an.Gos, true))
 	b.WriteString(leanPageTurns(an.Pages, true))
 	b.WriteString(leanHeldSends(an.HeldSends, true))
